@@ -76,7 +76,8 @@ impl RuntimeState {
 
     pub(super) fn next_deadline(&self) -> Option<Instant> {
         match (self.next_ping, self.ping_timeout) {
-            (Some(next_ping), Some(ping_timeout)) => Some(next_ping.min(ping_timeout)),
+            // No further PINGREQ is sent while one is outstanding, so only its timeout matters.
+            (Some(_), Some(ping_timeout)) => Some(ping_timeout),
             (Some(next_ping), None) => Some(next_ping),
             (None, Some(ping_timeout)) => Some(ping_timeout),
             (None, None) => None,
